@@ -745,7 +745,7 @@ def _cl(s):
 
 def generated_obligations(ck):
     head = ('From Pybtex Require Import Base.Prelude Base.PyChar Base.PyStr Model.RtTypes Model.Backends '
-            'Proofs.Backends Proofs.BackendsMd Proofs.BackendsHtml Proofs.BackendsLatex Proofs.BackendsHtmlWf.\nLocal Open Scope N_scope.\n')
+            'Proofs.Backends Proofs.BackendsMd Proofs.BackendsHtml Proofs.BackendsLatex Proofs.BackendsHtmlWf Proofs.BackendsMdTree.\nLocal Open Scope N_scope.\n')
     obs = []
     def run(name, what, body):
         try:
@@ -773,6 +773,10 @@ def generated_obligations(ck):
         return tabs(0) + 'Lemma html_symbols_are_entities_or_text : html_symbols_ok TAB = true /\\ html_symbols_wf TAB = true.\nProof. vm_compute. split; reflexivity. Qed.\n'
     def latex():
         return tabs(1) + 'Lemma latex_tables_shape : latex_tables_ok TAB = true.\nProof. vm_compute. reflexivity. Qed.\n'
+    def md():
+        from pybtex.backends import markdown
+        sc = ''.join(markdown.SPECIAL_CHARS)
+        return tabs(2).replace('markdown_escapable.', _cl(sc) + '.') + 'Lemma markdown_tables_shape : md_tables_ok TAB = true.\nProof. vm_compute. reflexivity. Qed.\n'
     def enc():
         chars = [chr(c) for c in range(128)] + list(WS + UNI)
         ent = [enc_entry(c) for c in chars]
@@ -782,5 +786,6 @@ def generated_obligations(ck):
     obs.append(run('special_chars_exact', 'markdown.SPECIAL_CHARS (regenerated) has the backslash first, no duplicates, and is exactly the Markdown syntax document\'s set', special))
     obs.append(run('html_symbols', 'html Backend.symbols (regenerated): every value is an entity or plain text', html))
     obs.append(run('latex_tables', 'latex Backend.symbols are brace-balanced and Backend.tags contain no brace (regenerated)', latex))
+    obs.append(run('markdown_tables', 'markdown Backend.symbols are entities or text, Backend.tags are delimiter characters, SPECIAL_CHARS has the modelled shape (regenerated)', md))
     obs.append(run('latexcodec_keeps_braces', 'latexcodec\'s translation of every ASCII character (+ samples), measured, keeps the brace skeleton', enc))
     return obs
